@@ -218,7 +218,8 @@ extern void *mpt_identifier_set(MPT_STRUCT(identifier) *id, const char *name, in
 	addr = (id->_len > id->_max) ? id->_base : 0;
 	if (len) {
 		int post = id->_max - len;
-		dest = memcpy(id->_val, name, len);
+		/* non-printable data has no source to copy from */
+		dest = name ? memcpy(id->_val, name, len) : memset(id->_val, 0, len);
 		if (post) {
 			memset(id->_val + len, 0, post);
 		}
